@@ -123,6 +123,12 @@ func TestSim(t *testing.T) {
 		}
 		worker(t, p, *fTier, baseSeed(), *fFrom, *fTo, *fOut, dl, *fEvHash)
 		os.Exit(0)
+	case "determinism":
+		n := *fTo
+		if n == 0 {
+			n = 64
+		}
+		os.Exit(parentDeterminism(p, *fTier, baseSeed(), n))
 	case "run":
 		n := *fWorkers
 		if n == 0 {
